@@ -644,6 +644,40 @@ def v_cifar(p):
   p.verify('cifar100.load_split[bad split]', eng2, body_bad)
 
 
+def v_progress(p):
+  """downloads.progress(n), the default driver of maybe_download's block loop: it yields exactly 0, 1, ..., n-1 and then
+  stops, OR it raises - it never stops early without an exception (an early silent stop would end the block loop after k < n
+  blocks and the truncated .partial would be renamed to the final name).  Its log calls may fail (OSError on stderr)."""
+  ex = p.extract(F, 'progress')
+  n = z3.Int('num_blocks')
+
+  def c_log(ctx, *a, **k):
+    fault(ctx, 'log')
+    return None
+  eng = Engine({'time': Module('time', {'time': Handler(lambda ctx: ctx.fresh('now', 'real'), 'time.time')}),
+                'log': Handler(c_log, 'log'),
+                'format_duration': Handler(lambda ctx, x: StrV(), 'format_duration')})
+
+  def inv(s):
+    return dict(count=s.ctx.ghost['yielded'] == to_z3(s.it), pos=z3.And(0 <= to_z3(s.it), to_z3(s.it) <= n))
+  loops = {0: Loop(inv=inv, ghost=['yielded'])}
+
+  def body(ctx):
+    ctx.model_vars['num_blocks'] = n
+    ctx.assume(n >= 0)
+    ctx.ghost['yielded'] = z3.IntVal(0)
+
+    def on_yield(c, v):
+      c.oblige('progress.order', to_z3(v) == c.ghost['yielded'], detail='the k-th value yielded is k')
+      c.ghost['yielded'] = c.ghost['yielded'] + 1
+    ctx.on_yield = on_yield
+    kind, r = eng.run_function(ctx, ex.funcv(loops=loops), [n])
+    ctx.oblige('progress.complete', z3.Implies(z3.BoolVal(kind == 'return'), ctx.ghost['yielded'] == n),
+               detail='when the generator finishes without raising it has yielded exactly n values: an error while reporting '
+                      'progress propagates, it never ends the block loop early')
+  p.verify('progress', eng, body)
+
+
 def _is_const(ctx, eng, v, name, key=None):
   """v is the value of module constant `name` (or name[key]) of cifar100.py."""
   import ast
@@ -671,6 +705,8 @@ def build(p):
   v_validate(p)
   p.native('cifar100.load_split', D, 'cifar')
   v_cifar(p)
+  p.native('progress', D, 'download')
+  v_progress(p)
   p.trust('T-IO: open(p, "wb") creates/truncates p atomically; write appends or raises; os.rename is atomic; '
           'r.raw.read(b) returns min(b, remaining) bytes or raises; the content-length header equals the payload '
           'size; shutil.copyfileobj/lzma copy everything or raise; any of these calls may fail (fresh fault flag per call)',
